@@ -251,7 +251,7 @@ const preludeBase = `
 (set-logic ALL)
 (declare-datatypes ((Slice 0)) (((mk-slice (s-arr Int) (s-off Int) (s-len Int) (s-cap Int)))))
 (declare-datatypes ((Iface 0)) (((mk-iface (i-tag Int) (i-val Int)))))
-(define-fun wf-slice ((s Slice)) Bool (and (>= (s-off s) 0) (>= (s-len s) 0) (<= (s-len s) (s-cap s)) (<= (+ (s-off s) (s-cap s)) 4611686018427387904) (=> (= (s-arr s) 0) (= (s-cap s) 0)) (>= (s-arr s) 0)))
+(define-fun wf-slice ((s Slice)) Bool (and (>= (s-off s) 0) (>= (s-len s) 0) (<= (s-len s) (s-cap s)) (<= (+ (s-off s) (s-cap s)) 281474976710656) (=> (= (s-arr s) 0) (= (s-cap s) 0)) (>= (s-arr s) 0)))
 (define-fun nil-slice () Slice (mk-slice 0 0 0 0))
 (define-fun nil-iface () Iface (mk-iface 0 0))
 (define-fun wrap_s64 ((x Int)) Int (ite (and (<= (- 9223372036854775808) x) (<= x 9223372036854775807)) x (- (mod (+ x 9223372036854775808) 18446744073709551616) 9223372036854775808)))
